@@ -86,6 +86,41 @@ def split_template(rnd: random.Random, nodes: List[Dict[str, Any]], base_name: s
         else:
             base.append({"t": "block", "name": bn, "a": []})
             child.append({"t": "block", "name": bn, "a": [{"t": "super"}, n]})
+    # blocks at NESTED positions of the base (inside fills, slot defaults, if / for / with bodies):
+    # {% block %} tags may sit anywhere; the child overrides some of them
+    counter = [len(nodes)]
+
+    def nest(lst):
+        for j, n in enumerate(lst):
+            for key in ("a", "b"):
+                if isinstance(n.get(key), list) and n["t"] not in ("block",):
+                    # the body of a component tag with explicit fills may hold only fill-level nodes
+                    if n["t"] == "comp" and n.get("body") == "fills":
+                        for f in n[key]:
+                            nest([f])
+                        continue
+                    if n["t"] in ("if", "for", "with") and n[key] and n[key][0].get("t") in ("fill", "if", "for", "with") \
+                            and any(x.get("t") == "fill" for x in n[key]):
+                        nest(n[key])
+                        continue
+                    kids = n[key]
+                    for k2 in range(len(kids)):
+                        if kids[k2]["t"] in ("fill", "block", "super") or rnd.random() > 0.2:
+                            continue
+                        counter[0] += 1
+                        bn = f"{prefix}n{counter[0]}"
+                        e = kids[k2]
+                        mode = rnd.choice(["base", "override", "super-before"])
+                        if mode == "base":
+                            kids[k2] = {"t": "block", "name": bn, "a": [e]}
+                        elif mode == "override":
+                            kids[k2] = {"t": "block", "name": bn, "a": [{"t": "text", "id": "BASEONLY"}]}
+                            child.append({"t": "block", "name": bn, "a": [e]})
+                        else:
+                            kids[k2] = {"t": "block", "name": bn, "a": []}
+                            child.append({"t": "block", "name": bn, "a": [{"t": "super"}, e]})
+                    nest([x for x in kids if x["t"] != "block"])
+    nest([b for b in base if b["t"] != "block"] + [x for b in base if b["t"] == "block" for x in b["a"]])
     tpls.append({"name": base_name, "a": base})
     return base_name, child
 
@@ -149,10 +184,29 @@ def finding_key(p, e, o, m) -> Optional[str]:
         return "same-block-names-in-two-families:blocks-of-other-template"
     ext = {i + 1 for i, c in enumerate(p["comps"]) if c.get("ext")}
     insts = [(tuple(path), c) for path, c in e["insts"] if c in ext]
-    nested = any(a != b and b[0][:len(a[0])] == a[0] for a in insts for b in insts)
-    if p["mode"] == "django" and nested:
-        return "django-extends-inside-extends:blocks-of-other-template"
+    # a {% block %} written inside a {% slot %} (default content) or inside the body of a component tag
+    # (a {% fill %} or the implicit body) is rendered through a separate Template / context copy that does
+    # not see the family's block overrides
+    if _block_in_slot_or_comp_body(p):
+        return "block-inside-slot-or-component-body:not-resolved-in-its-family"
+    # django mode: the BlockContext of the surrounding render is shared into every component template, so an
+    # extends-based component rendered together with another family (the page's, or another extends-based
+    # component instance) can get blocks of the other family
+    if p["mode"] == "django" and insts and (p.get("pext") or len(insts) > 1):
+        return "django-extends-component-with-other-family:blocks-of-other-template"
     return None
+
+
+def _block_in_slot_or_comp_body(p) -> bool:
+    def walk(nodes, inside=False):
+        for n in nodes:
+            if n["t"] == "block" and inside:
+                return True
+            for k in ("a", "b"):
+                if isinstance(n.get(k), list) and walk(n[k], inside or n["t"] in ("comp", "slot")):
+                    return True
+        return False
+    return walk(p["page"]) or any(walk(c["tpl"]) for c in p["comps"]) or any(walk(t["a"]) for t in p["tpls"])
 
 
 # ------------------------------------------------------------------ (a) stock differential
